@@ -13,6 +13,7 @@ import (
 	"github.com/rminnich/go9p"
 
 	"verif/core"
+	"verif/script"
 	"verif/wire"
 )
 
@@ -98,6 +99,9 @@ func c06Cases(tier string, seed int64) []core.Case {
 			}})
 			cases = append(cases, core.Case{ID: fmt.Sprintf("renegotiate/%s/dotu=%v", server, dotu), Run: func(ctx *core.Ctx) core.Result {
 				return c06Renegotiate(ctx, server, dotu)
+			}})
+			cases = append(cases, core.Case{ID: fmt.Sprintf("cancelled-unstarted/%s/dotu=%v", server, dotu), Run: func(ctx *core.Ctx) core.Result {
+				return c06CancelledUnstarted(ctx, server, dotu)
 			}})
 		}
 	}
@@ -896,6 +900,154 @@ func c06TinyPipelined(ctx *core.Ctx, server string, dotu bool) core.Result {
 		c.Hangup()
 		res.Sig(fmt.Sprintf("%s|%v|tiny-pipelined|%d|%v", server, dotu, msize, *go9p.Akaros))
 		h.check(what, "tinymsize-pipelined")
+	}
+	return res
+}
+
+// c06CancelledUnstarted: requests that are cancelled before any goroutine has worked on them — queued behind an
+// executing request with the same tag when a Tflush of that tag, or a Tversion, arrives. Their reply buffers are
+// recycled ones that still look like the replies they carried last (the pool is warmed with overlapping requests of
+// one kind first), their fids were never looked up: taking them off the connection must not touch either.
+func c06CancelledUnstarted(ctx *core.Ctx, server string, dotu bool) core.Result {
+	var res core.Result
+	h := newHostile(ctx, &res, server, dotu)
+	if h == nil {
+		return res
+	}
+	defer h.done()
+	warmKinds := []string{"Tread", "Tattach", "Tauth", "Twalk", "Tstat", "Topen"}
+	for wi, warm := range warmKinds {
+		for _, canceller := range []string{"tflush", "tversion", "tflush-twice"} {
+			for _, victims := range []string{"Tread", "Tstat", "Tattach"} {
+				reps := 1
+				if server == "ufs" {
+					reps = 6 // nothing can be held inside the Unix file server: the overlap is a matter of pipelining
+				}
+				for rep := 0; rep < reps; rep++ {
+					c := h.s.Dial()
+					what := fmt.Sprintf("%s dotu=%v cancelled-unstarted warm=%s canceller=%s victims=%s", server, dotu, warm, canceller, victims)
+					ctx.Note([]byte(what))
+					fmt.Fprintln(os.Stderr, "--- session:", what)
+					if !h.setup(c, 8192) {
+						c.Hangup()
+						continue
+					}
+					mk := func(kind string, tag uint16, i int) *wire.Msg {
+						switch kind {
+						case "Tread":
+							return &wire.Msg{Type: wire.Tread, Tag: tag, Fid: 1, Offset: 0, Count: 16}
+						case "Tattach":
+							return &wire.Msg{Type: wire.Tattach, Tag: tag, Fid: uint32(2000 + int(tag)*10 + i), Afid: wire.NOFID, Uname: "root", Nuname: 0}
+						case "Tauth":
+							return &wire.Msg{Type: wire.Tauth, Tag: tag, Afid: uint32(3000 + int(tag)*10 + i), Uname: "root", Nuname: 0, Aname: "x"}
+						case "Twalk":
+							return &wire.Msg{Type: wire.Twalk, Tag: tag, Fid: 0, Newfid: uint32(4000 + int(tag)*10 + i)}
+						case "Topen":
+							return &wire.Msg{Type: wire.Topen, Tag: tag, Fid: uint32(4000 + int(tag)*10 + i), Mode: 0}
+						}
+						return &wire.Msg{Type: wire.Tstat, Tag: tag, Fid: 1}
+					}
+					// warm the pool: 8 overlapping requests of one kind
+					var gate chan struct{}
+					var plans []*script.Plan
+					var burst []*wire.Msg
+					for i := 0; i < 8; i++ {
+						m := mk(warm, uint16(100+i), 0)
+						if warm == "Topen" {
+							m = mk("Twalk", uint16(100+i), 0) // (opened in the second burst below)
+						}
+						burst = append(burst, m)
+						if server == "script" {
+							if gate == nil {
+								gate = make(chan struct{})
+							}
+							p := script.NewPlan()
+							p.Gate, p.Entered = gate, make(chan struct{})
+							plans = append(plans, p)
+							h.s.Ops.SetPlan(c.ID, m.Tag, p)
+						}
+					}
+					_ = c.Send(burst...)
+					overlap := time.After(300 * time.Millisecond) // (not every kind reaches the implementation)
+				waitWarm:
+					for _, p := range plans {
+						select {
+						case <-p.Entered:
+						case <-overlap:
+							break waitWarm
+						}
+					}
+					if gate != nil {
+						close(gate)
+					}
+					for _, m := range burst {
+						c.WaitTag(m.Tag, 2*time.Second)
+					}
+					if warm == "Topen" {
+						var b2 []*wire.Msg
+						for i := 0; i < 8; i++ {
+							b2 = append(b2, mk("Topen", uint16(100+i), 0))
+						}
+						_ = c.Send(b2...)
+						for _, m := range b2 {
+							c.WaitTag(m.Tag, 2*time.Second)
+						}
+					}
+					// the group: one request executing, three queued behind it under the same tag, then the canceller
+					const T = 500
+					var group []*wire.Msg
+					for i := 0; i < 4; i++ {
+						group = append(group, mk(victims, T, i))
+					}
+					var hold *script.Plan
+					if server == "script" {
+						hold = script.NewPlan()
+						hold.Gate, hold.Entered = make(chan struct{}), make(chan struct{})
+						h.s.Ops.SetPlan(c.ID, T, hold)
+					}
+					var cancel []*wire.Msg
+					switch canceller {
+					case "tflush":
+						cancel = []*wire.Msg{{Type: wire.Tflush, Tag: 600, Oldtag: T}}
+					case "tflush-twice":
+						cancel = []*wire.Msg{{Type: wire.Tflush, Tag: 600, Oldtag: T}, {Type: wire.Tflush, Tag: 601, Oldtag: T}}
+					case "tversion":
+						cancel = []*wire.Msg{{Type: wire.Tversion, Tag: wire.NOTAG, Msize: 8192, Version: h.ver()}}
+					}
+					if hold != nil {
+						_ = c.Send(group[0])
+						select {
+						case <-hold.Entered:
+						case <-time.After(2 * time.Second):
+						}
+						_ = c.Send(append(group[1:], cancel...)...)
+						if canceller == "tversion" {
+							c.WaitTag(wire.NOTAG, 2*time.Second)
+						} else {
+							time.Sleep(3 * time.Millisecond)
+						}
+						close(hold.Gate)
+					} else {
+						_ = c.Send(append(group, cancel...)...)
+					}
+					for _, m := range cancel {
+						if hold != nil && m.Type == wire.Tversion {
+							continue // (waited for above)
+						}
+						c.WaitTag(m.Tag, 2*time.Second)
+					}
+					c.Quiesce(2 * time.Second)
+					// the connection itself is still served (after a Tversion: from scratch)
+					if canceller == "tversion" {
+						c.Rpc(&wire.Msg{Type: wire.Tattach, Tag: 700, Fid: 0, Afid: wire.NOFID, Uname: "root", Nuname: 0}, 2*time.Second)
+					}
+					c.Rpc(&wire.Msg{Type: wire.Tstat, Tag: 701, Fid: 0}, 2*time.Second)
+					c.Hangup()
+					res.Sig(fmt.Sprintf("%s|%v|cancelled-unstarted|%d|%s|%s", server, dotu, wi, canceller, victims))
+					h.check(what, "cancelled-unstarted")
+				}
+			}
+		}
 	}
 	return res
 }
